@@ -9,7 +9,8 @@ Types == {"equals", "contains", "starts-with", "ends-with"}
 Colls == {"i;octet", "i;ascii-casemap", "i;unicode-casemap"}
 
 \* A: one prop-filter FN with one text-match; every card has exactly one FN
-Values  == Words(MaxValue)
+\* values do not begin or end with a blank (a vCard writer may trim those); needles may
+Values  == {v \in Words(MaxValue) : v[1] # "sp" /\ v[Len(v)] # "sp"}
 Needles == Words(MaxNeedle)
 Tms == {[type |-> t, coll |-> c, neg |-> g, needle |-> n] : t \in Types, c \in Colls, g \in BOOLEAN, n \in Needles}
 \* for each text-match: the set of values that must be returned
